@@ -388,6 +388,8 @@ func stressMain(args []string) {
 		res = stressPool(r, args[1] == "thorough")
 	case "batch":
 		res = stressBatch(r, args[1] == "thorough")
+	case "store":
+		res = stressStore(r, args[1] == "thorough")
 	default:
 		fmt.Fprintln(os.Stderr, "unknown stress target", args[0])
 		os.Exit(2)
@@ -397,4 +399,117 @@ func stressMain(args []string) {
 	if !res.OK {
 		os.Exit(1)
 	}
+}
+
+// stressStore: BULK operations (Merge of many keys, Clear, GetAll / Keys / Len of a large store) racing other operations.
+// Every linearizable store satisfies, whatever the interleaving:
+//   phase A  writers Set keys PRIVATE to them while another goroutine keeps merging a large map of other keys: a writer that reads
+//            its own key back right after its Set returned finds what it set, and when everybody has finished every private key holds
+//            its writer's last Set (a lost update is a violation: nothing else writes those keys);
+//   phase B  one goroutine alternates Merge(bulk) and Clear() while readers call Keys / GetAll / Len: the bulk keys appear and
+//            disappear all together, so a reader never counts SOME of them (a torn Merge or a half-cleared store).
+// Large key counts make the windows of copy-on-write / chunked / lock-free-counter implementations wide enough to be hit.
+func stressStore(r *rng, thorough bool) stressResult {
+	budget := 1200 * time.Millisecond
+	if thorough {
+		budget = 12 * time.Second
+	}
+	deadline := time.Now().Add(budget)
+	total := 0
+	for it := 0; time.Now().Before(deadline); it++ {
+		nBulk := []int{70, 300, 3000, 20000}[it%4]
+		bulk := make(map[string]any, nBulk)
+		for i := 0; i < nBulk; i++ {
+			bulk["bulk/"+strconv.Itoa(i)] = i
+		}
+		slice := 120 * time.Millisecond
+		var witness atomic.Value
+		// ---- phase A: lost updates
+		{
+			st := flyt.NewSharedStore()
+			writers := 1 + r.intn(3)
+			var stop atomic.Bool
+			fail := func(w any) { witness.CompareAndSwap(nil, w); stop.Store(true) }
+			var wg sync.WaitGroup
+			last := make([]int, writers)
+			for w := 0; w < writers; w++ {
+				wg.Add(1)
+				go func(w int) {
+					defer wg.Done()
+					for n := 1; !stop.Load(); n++ {
+						key := "private/" + strconv.Itoa(w) + "/" + strconv.Itoa(n%7)
+						st.Set(key, n)
+						last[w] = n
+						if got, ok := st.Get(key); !ok || got != n {
+							fail(map[string]any{"what": "a Set that returned is lost (no other goroutine writes this key)", "key": key,
+								"set": n, "got": fmt.Sprint(got), "present": ok, "bulkKeys": nBulk, "writers": writers})
+							return
+						}
+					}
+				}(w)
+			}
+			end := time.Now().Add(slice)
+			for !stop.Load() && time.Now().Before(end) {
+				st.Merge(bulk)
+				total++
+			}
+			stop.Store(true)
+			wg.Wait()
+			if w := witness.Load(); w != nil {
+				return stressResult{OK: false, Kind: "store", Runs: total, Witness: w}
+			}
+			for w := 0; w < writers; w++ {
+				if n := last[w]; n > 0 {
+					key := "private/" + strconv.Itoa(w) + "/" + strconv.Itoa(n%7)
+					if got, ok := st.Get(key); !ok || got != n {
+						return stressResult{OK: false, Kind: "store", Runs: total, Witness: map[string]any{
+							"what": "after all goroutines finished a private key does not hold its writer's last Set", "key": key, "set": n,
+							"got": fmt.Sprint(got), "present": ok, "bulkKeys": nBulk}}
+					}
+				}
+			}
+		}
+		// ---- phase B: torn bulk views
+		{
+			st := flyt.NewSharedStore()
+			var stop atomic.Bool
+			fail := func(w any) { witness.CompareAndSwap(nil, w); stop.Store(true) }
+			var wg sync.WaitGroup
+			for rd := 0; rd < 2; rd++ {
+				wg.Add(1)
+				go func(rd int) {
+					defer wg.Done()
+					for !stop.Load() {
+						var c int
+						var what string
+						switch rd {
+						case 0:
+							c, what = len(st.Keys()), "Keys()"
+							if c == 0 || c == nBulk {
+								c, what = st.Len(), "Len()"
+							}
+						default:
+							c, what = len(st.GetAll()), "GetAll()"
+						}
+						if c != 0 && c != nBulk {
+							fail(map[string]any{"what": what + " saw part of a Merge / a half-cleared store", "entriesSeen": c, "bulkKeys": nBulk})
+							return
+						}
+					}
+				}(rd)
+			}
+			end := time.Now().Add(slice)
+			for !stop.Load() && time.Now().Before(end) {
+				st.Merge(bulk)
+				st.Clear()
+				total++
+			}
+			stop.Store(true)
+			wg.Wait()
+			if w := witness.Load(); w != nil {
+				return stressResult{OK: false, Kind: "store", Runs: total, Witness: w}
+			}
+		}
+	}
+	return stressResult{OK: true, Kind: "store", Runs: total}
 }
